@@ -16,7 +16,7 @@ const c03MapChunks = 512
 // c03MapOrder runs analysis.Stratify under an explorer-owned map iteration order. The cases run in worker
 // processes of the vmap build (bin/mcv; the iteration policy is process-global).
 func c03MapOrder(r *rt.Run) {
-	exe := filepath.Join(os.Getenv("VERIF_DIR"), "bin", "mcv")
+	exe := filepath.Join(rt.OutDir, "bin", "mcv")
 	if _, err := os.Stat(exe); err != nil {
 		fmt.Fprintf(os.Stderr, "harness error: %s is missing (run ./check setup or ./check C03 ...)\n", exe)
 		os.Exit(2)
